@@ -47,7 +47,10 @@ def op_probe(req):
     t.raw_string = t.file_string = "case 1: while ($x) { a; } b;"
     t.file_path = "main.jmc"
     progs = t.parse(t.raw_string, line=1, col=1, expect_semicolon=True)
-    return {"has_end": has_macro_end(), "case_fix": len(progs) == 2}
+    from jmc.compile.utils import is_decorator
+    return {"has_end": has_macro_end(), "case_fix": len(progs) == 2,
+            # fixes/C16-selector-argument-of-macro.patch: a selector with arguments merged into one token is no decorator
+            "selector_arg_fix": not is_decorator("@e[type=pig]")}
 
 
 def op_corpus(req):
